@@ -15,6 +15,15 @@ Recursion is by fuel (`outOfFuel` is an explicit outcome).
 -/
 namespace ArgMapper
 
+/-- a value in flight: what `reflect` shows (static type, provenance id) plus a *ghost* origin — the
+vertex at which this value entered the graph (a supplied input vertex or a converter's output
+vertex).  The origin is never read by the model; the C01 theorems are stated over it. -/
+structure PVal where
+  ty  : Nat
+  id  : Nat
+  org : Vtx
+deriving Repr, DecidableEq, Inhabited
+
 inductive PanicKind
   | finalValue          -- "didn't reach a final value for path"
   | setNotAssignable    -- reflect.Value.Set with a non-assignable value
@@ -45,7 +54,7 @@ deriving Repr, DecidableEq, Inhabited
 structure ExecEv where
   fid  : Nat
   nth  : Nat
-  args : List Val
+  args : List PVal
   res  : BehOut
 deriving Repr, DecidableEq
 
@@ -65,8 +74,8 @@ structure Memo where
 deriving Repr, DecidableEq
 
 structure CallSt where
-  store    : List (Vtx × Val)
-  last     : Option Val
+  store    : List (Vtx × PVal)
+  last     : Option PVal
   inputSet : List Vtx
   memo     : List (Nat × Memo)
   log      : List ExecEv
@@ -75,14 +84,14 @@ structure CallSt where
   orc      : List OrcItem
 deriving Repr
 
-abbrev ArgMap := List (Vtx × Val)
+abbrev ArgMap := List (Vtx × PVal)
 
 structure Ctx where
   env   : TypeEnv
   g     : AGraph Vtx
   /-- the function object held by a function vertex -/
   funcOf : Nat → Option FuncDesc
-  beh   : Nat → Nat → List Val → BehOut
+  beh   : Nat → Nat → List PVal → BehOut
   /-- `true` once the memoised slice is copied before unwrapping (repair of F15) -/
   memoCopy : Bool := true
   /-- repaired behaviours of `reachTarget` (findings F2, F3, F4) -/
@@ -95,9 +104,9 @@ structure Ctx where
       (used to run the model on its own: enumeration, crashed scenarios) -/
   auto : Bool := false
 
-def CallSt.get (s : CallSt) (v : Vtx) : Option Val := mapGet s.store v
+def CallSt.get (s : CallSt) (v : Vtx) : Option PVal := mapGet s.store v
 
-def CallSt.set (s : CallSt) (v : Vtx) (x : Option Val) : CallSt :=
+def CallSt.set (s : CallSt) (v : Vtx) (x : Option PVal) : CallSt :=
   match x with
   | some y => { s with store := mapSet s.store v y }
   | none => { s with store := s.store.filter (fun p => !decide (p.1 = v)) }
@@ -105,12 +114,12 @@ def CallSt.set (s : CallSt) (v : Vtx) (x : Option Val) : CallSt :=
 def CallSt.addInput (s : CallSt) (v : Vtx) : CallSt :=
   if v ∈ s.inputSet then s else { s with inputSet := s.inputSet ++ [v] }
 
-def zeroVal (ty : Nat) : Val := { ty := ty, id := 0 }
+def zeroVal (ty : Nat) (at_ : Vtx) : PVal := { ty := ty, id := 0, org := at_ }
 
 /-! ### callDirect -/
 
 /-- arguments in the order of `f.input.values`; `none` when one is missing from the map -/
-def gatherArgs (e : TypeEnv) (f : FuncDesc) (am : ArgMap) : Except RErr (List Val) :=
+def gatherArgs (e : TypeEnv) (f : FuncDesc) (am : ArgMap) : Except RErr (List PVal) :=
   f.input.values.foldl (fun acc v =>
     match acc with
     | .error x => .error x
@@ -118,7 +127,7 @@ def gatherArgs (e : TypeEnv) (f : FuncDesc) (am : ArgMap) : Except RErr (List Va
       match mapGet am v.lab.vertex with
       | none => .error .missingArg
       | some a =>
-        if e.assignable a.ty v.lab.ty then .ok (l ++ [{ ty := v.lab.ty, id := a.id }])
+        if e.assignable a.ty v.lab.ty then .ok (l ++ [{ ty := v.lab.ty, id := a.id, org := a.org }])
         else .error (.panic .setNotAssignable)) (.ok [])
 
 def countOf (s : CallSt) (fid : Nat) : Nat := (mapGet s.count fid).getD 0
@@ -139,10 +148,10 @@ def callDirect (c : Ctx) (f : FuncDesc) (am : ArgMap) (s : CallSt) : Except RErr
 
 /-- field `idx` of the result struct: the id the body returned for the output value with that
 struct index (`BehOut.outs` is aligned with `f.output.values`) -/
-def resultField (f : FuncDesc) (r : BehOut) (idx : Nat) (ty : Nat) : Val :=
+def resultField (f : FuncDesc) (r : BehOut) (idx : Nat) (ty : Nat) (at_ : Vtx) : PVal :=
   match (f.output.values.zip r.outs).find? (fun p => p.1.index == idx) with
-  | some p => { ty := ty, id := p.2 }
-  | none => zeroVal ty
+  | some p => { ty := ty, id := p.2, org := at_ }
+  | none => zeroVal ty at_
 
 /-- `outputValues`: write the result's fields to the function's output vertices -/
 def outputValues (c : Ctx) (f : FuncDesc) (r : BehOut) (unwrapped : Bool) (s : CallSt) : Except RErr CallSt :=
@@ -155,11 +164,11 @@ def outputValues (c : Ctx) (f : FuncDesc) (r : BehOut) (unwrapped : Bool) (s : C
       match v with
       | .value n _ _ =>
         match mapGet f.output.named n with
-        | some sv => s.set v (some (resultField f r sv.index sv.lab.ty))
+        | some sv => s.set v (some (resultField f r sv.index sv.lab.ty v))
         | none => s
       | .out t _ =>
         match mapGet f.output.typed t with
-        | some sv => s.set v (some (resultField f r sv.index sv.lab.ty))
+        | some sv => s.set v (some (resultField f r sv.index sv.lab.ty v))
         | none => s
       | _ => s) s)
 
@@ -167,7 +176,7 @@ def outputValues (c : Ctx) (f : FuncDesc) (r : BehOut) (unwrapped : Bool) (s : C
 
 structure WalkSt where
   s     : CallSt
-  final : Option Val
+  final : Option PVal
   prev  : Option Vtx
   err   : Option RErr
 
@@ -295,8 +304,8 @@ def planOne (target : Vtx) (reaching : List Vtx) (trackReaching redefine : Bool)
     let s := ps.s.addInput input
     let s := if redefine then
         match input with
-        | .value _ t _ => if (s.get input).isNone then s.set input (some (zeroVal t)) else s
-        | .arg t _ => s.set input (some (zeroVal t))
+        | .value _ t _ => if (s.get input).isNone then s.set input (some (zeroVal t input)) else s
+        | .arg t _ => s.set input (some (zeroVal t input))
         | _ => s
       else s
     { s := s, unsat := unsat }
@@ -344,7 +353,7 @@ inductive Outcome
 deriving Repr, DecidableEq
 
 def initSt (cg : CG) (memo : List (Nat × Memo)) (orc : List OrcItem) : CallSt :=
-  { store := cg.store, last := none, inputSet := [], memo := memo, log := [], count := [], orc := orc }
+  { store := cg.store.map (fun p => (p.1, { ty := p.2.ty, id := p.2.id, org := p.1 })), last := none, inputSet := [], memo := memo, log := [], count := [], orc := orc }
 
 /-- `Func.Call` after the builder: call graph, `reachTarget`, `callDirect` -/
 def callWith (c : Ctx) (cgr : CallGraphResult) (target : FuncDesc) (fuel : Nat) (s0 : CallSt) : Outcome × CallSt :=
